@@ -40,9 +40,11 @@ func runC01(e *Env) {
 	}
 	if e.want("C01.R2") {
 		c01Layouts(e)
+		c01SignalRegistries(e, "C01.R2")
 	}
 	if e.want("C01.R3") {
 		c01OneCodePath(e)
+		c01ExactThreshold(e)
 	}
 	if e.want("C01.R4") {
 		c01NoExtend(e)
@@ -982,4 +984,162 @@ func rootedAt(v ssa.Value, root ssa.Value) bool {
 		}
 	}
 	return false
+}
+
+// c01ExactThreshold (R3): a writer succeeds exactly when the buffer has at least as many bytes as it reports, and reports
+// the same size when it refuses – abstract interpretation for every buffer length 0 … size+1 (content symbolic).
+func c01ExactThreshold(e *Env) {
+	rule := "C01.R3"
+	ib := e.P.Cfg.IntBit
+	if ib == 0 {
+		ib = 64
+	}
+	type arg func(st *core.AState, it *core.Interp, buf *core.AVal) []*core.AVal
+	runLens := func(name string, f *ssa.Function, want int, mk arg) {
+		if f == nil {
+			return
+		}
+		ok, why := true, ""
+		for L := 0; L <= want+1; L++ {
+			it := core.NewInterp(e.P)
+			outs := it.RunWith(f, func(st *core.AState) []*core.AVal {
+				z := make([]*core.AVal, L)
+				for i := range z {
+					z[i] = core.ConstAInt(bigI(0), 8, false)
+				}
+				var buf *core.AVal
+				if L == 0 {
+					buf = st.NewArray(nil)
+				} else {
+					buf = st.NewArray(z)
+				}
+				return mk(st, it, buf)
+			})
+			if len(outs) == 0 {
+				ok, why = false, "no outcome"
+			}
+			for _, o := range outs {
+				if o.Abort || o.Panic || len(o.Ret) != 2 || o.Ret[1].K != core.AErr || o.Ret[1].ErrNil == -1 {
+					ok, why = false, fmt.Sprintf("len(buf)=%d undecided: %s", L, core.SummarizeOutcomes([]core.Outcome{o}))
+					continue
+				}
+				n, isC := o.Ret[0].IsConst()
+				if !isC || n.Int64() != int64(want) {
+					ok, why = false, fmt.Sprintf("len(buf)=%d: reports size %s, expected %d", L, o.Ret[0], want)
+				}
+				succeeded := o.Ret[1].ErrNil == 1
+				if succeeded != (L >= want) {
+					ok, why = false, fmt.Sprintf("with a %d-byte buffer and %d bytes to write the result is %s", L, want, o.Ret[1])
+				} else if !succeeded && o.Ret[1].Tag != "global:message.ErrTooSmall" {
+					ok, why = false, fmt.Sprintf("refuses a %d-byte buffer with %s instead of ErrTooSmall", L, o.Ret[1])
+				}
+				if o.St != nil {
+					for _, ev := range o.St.Events {
+						ok, why = false, ev
+					}
+				}
+			}
+		}
+		if strings.Contains(why, "undecided") {
+			e.R.Undecided(rule, name+":exact-threshold", e.fpos(f), why)
+			return
+		}
+		e.R.Check(ok, rule, name+":exact-threshold", e.fpos(f), fmt.Sprintf("for every buffer length 0…%d: succeeds iff len(buf) ≥ %d, always reports %d, refuses with ErrTooSmall, never writes out of range", want+1, want, want), why)
+	}
+	ext := e.fn(rule, "message.marshalOptionHeaderExt")
+	for _, c := range []struct {
+		nib  int64
+		want int
+	}{{5, 0}, {13, 1}, {14, 2}} {
+		c := c
+		runLens(fmt.Sprintf("message.marshalOptionHeaderExt nibble=%d", c.nib), ext, c.want, func(st *core.AState, it *core.Interp, buf *core.AVal) []*core.AVal {
+			return []*core.AVal{buf, core.ConstAInt(bigI(c.nib), ib, true), core.SymInt("e", ib, true, bigI(0), bigI(255), 0)}
+		})
+	}
+	hdr := e.fn(rule, "message.marshalOptionHeader")
+	for _, c := range []struct {
+		d, l int64
+		want int
+	}{{5, 5, 1}, {100, 5, 2}, {300, 5, 3}, {5, 300, 3}, {300, 300, 5}, {100, 100, 3}} {
+		c := c
+		runLens(fmt.Sprintf("message.marshalOptionHeader delta=%d length=%d", c.d, c.l), hdr, c.want, func(st *core.AState, it *core.Interp, buf *core.AVal) []*core.AVal {
+			return []*core.AVal{buf, core.ConstAInt(bigI(c.d), ib, true), core.ConstAInt(bigI(c.l), ib, true)}
+		})
+	}
+	om := e.fn(rule, "message.Option.Marshal")
+	for _, c := range []struct {
+		id   int64
+		vlen int
+		want int
+	}{{300, 0, 3}, {300, 3, 6}, {11, 2, 3}, {20, 0, 2}} {
+		c := c
+		runLens(fmt.Sprintf("message.Option.Marshal id=%d len=%d", c.id, c.vlen), om, c.want, func(st *core.AState, it *core.Interp, buf *core.AVal) []*core.AVal {
+			v := make([]*core.AVal, c.vlen)
+			for i := range v {
+				v[i] = core.SymInt(fmt.Sprintf("v%d", i), 8, false, bigI(0), bigI(255), 8)
+			}
+			if c.vlen == 0 {
+				it.PathInputs["o.Value"] = &core.AVal{K: core.ABytes, Arr: -1}
+			} else {
+				it.PathInputs["o.Value"] = st.NewArray(v)
+			}
+			it.PathInputs["o.ID"] = core.ConstAInt(bigI(c.id), 16, false)
+			return []*core.AVal{core.OpaqueV("obj:o"), buf, core.ConstAInt(bigI(0), 16, false)}
+		})
+	}
+	// whole datagram / stream encoders on option-less messages
+	for _, tkl := range []int{0, 8} {
+		tkl := tkl
+		mkMsg := func(st *core.AState, it *core.Interp) {
+			tok := make([]*core.AVal, tkl)
+			for i := range tok {
+				tok[i] = core.SymInt(fmt.Sprintf("tok%d", i), 8, false, bigI(0), bigI(255), 8)
+			}
+			if tkl == 0 {
+				it.PathInputs["m.Token"] = &core.AVal{K: core.ABytes, Arr: -1}
+			} else {
+				it.PathInputs["m.Token"] = st.NewArray(tok)
+			}
+			it.PathInputs["m.Payload"] = &core.AVal{K: core.ABytes, Arr: -1}
+			it.PathInputs["m.Options"] = &core.AVal{K: core.ABytes, Arr: -1}
+			it.PathInputs["m.Type"] = core.SymInt("typ", 16, true, bigI(0), bigI(3), 2)
+			it.PathInputs["m.MessageID"] = core.SymInt("mid", 32, true, bigI(0), bigI(65535), 16)
+			it.PathInputs["m.Code"] = core.SymInt("code", 16, false, bigI(0), bigI(255), 8)
+		}
+		runLens(fmt.Sprintf("udp/coder.Coder.Encode tkl=%d", tkl), e.fn(rule, "udp/coder.Coder.Encode"), 4+tkl, func(st *core.AState, it *core.Interp, buf *core.AVal) []*core.AVal {
+			mkMsg(st, it)
+			return []*core.AVal{core.OpaqueV("coder"), core.OpaqueV("obj:m"), buf}
+		})
+		runLens(fmt.Sprintf("tcp/coder.Coder.Encode tkl=%d", tkl), e.fn(rule, "tcp/coder.Coder.Encode"), 2+tkl, func(st *core.AState, it *core.Interp, buf *core.AVal) []*core.AVal {
+			mkMsg(st, it)
+			return []*core.AVal{core.OpaqueV("coder"), core.OpaqueV("obj:m"), buf}
+		})
+	}
+}
+
+// c01SignalRegistries (R2): the stream decoder parses each signalling code with that code's own option registry.
+func c01SignalRegistries(e *Env, rule string) {
+	f := e.fn(rule, "tcp/coder.Coder.DecodeWithHeader")
+	if f == nil {
+		return
+	}
+	want := map[int64]string{225: "TCPSignalCSMOptionDefs", 226: "TCPSignalPingPongOptionDefs", 227: "TCPSignalPingPongOptionDefs", 228: "TCPSignalReleaseOptionDefs", 229: "TCPSignalAbortOptionDefs",
+		1: "CoapOptionDefs", 69: "CoapOptionDefs", 132: "CoapOptionDefs", 0: "CoapOptionDefs"}
+	for code, reg := range want {
+		it := core.NewInterp(e.P)
+		got := ""
+		it.Models["message.Options.Unmarshal"] = func(_ *core.Interp, _ *core.AState, args []*core.AVal) []*core.AVal {
+			if len(args) >= 3 {
+				got = args[2].Tag
+			}
+			return []*core.AVal{core.ConstAInt(bigI(0), it.IntBits, true), core.NilErrV()}
+		}
+		it.PathInputs["header.Code"] = core.ConstAInt(bigI(code), 16, false)
+		it.PathInputs["header.Length"] = core.ConstAInt(bigI(2), 32, false)
+		_ = it.RunWith(f, func(st *core.AState) []*core.AVal {
+			return []*core.AVal{core.OpaqueV("coder"), st.NewArray(nil), core.OpaqueV("obj:header"), core.OpaqueV("obj:m")}
+		})
+		e.R.Check(got == "global:message."+reg, rule, fmt.Sprintf("tcp/coder.Coder.DecodeWithHeader:registry code=%d", code), e.fpos(f),
+			"options of code "+fmt.Sprint(code)+" are parsed with message."+reg, fmt.Sprintf("code %d is parsed with %q instead of message.%s: options legal for this signalling message are dropped", code, got, reg))
+	}
 }
